@@ -494,6 +494,11 @@ func (w *World) Step(op Op) bool {
 				// a follower that dies on a request of its leader can never be brought up to date
 				prop = "C15/C09"
 			}
+			if w.Node.Panic == "fsm" {
+				// the state-machine goroutine asserts that what it is asked to apply continues what it applied and
+				// lies within the commit index: the orderings of C19 / the feed of C03 are broken
+				prop += "/C19/C03"
+			}
 			w.record("panic", pre, real, nil, op, "real node panicked ("+w.Node.Panic+") on a request a correct cluster can send", prop)
 		} else {
 			w.St.Hist["panic-after-adversarial-input"]++
